@@ -47,6 +47,48 @@ func succInstrs(in ssa.Instruction) []ssa.Instruction {
 	return out
 }
 
+// ReachFromFiltered is ReachFrom on the CFG with the edges for which skip
+// returns true removed.
+func ReachFromFiltered(start ssa.Instruction, incl bool, stop func(ssa.Instruction) bool, skip func(from, to *ssa.BasicBlock) bool) map[ssa.Instruction]bool {
+	seen := map[ssa.Instruction]bool{}
+	var work []ssa.Instruction
+	push := func(in ssa.Instruction) {
+		if !seen[in] {
+			seen[in] = true
+			if stop == nil || !stop(in) {
+				work = append(work, in)
+			}
+		}
+	}
+	next := func(in ssa.Instruction) {
+		b := in.Block()
+		i := instrIndex(in)
+		if i+1 < len(b.Instrs) {
+			push(b.Instrs[i+1])
+			return
+		}
+		for _, s := range b.Succs {
+			if skip != nil && skip(b, s) {
+				continue
+			}
+			if len(s.Instrs) > 0 {
+				push(s.Instrs[0])
+			}
+		}
+	}
+	if incl {
+		push(start)
+	} else {
+		next(start)
+	}
+	for len(work) > 0 {
+		in := work[len(work)-1]
+		work = work[:len(work)-1]
+		next(in)
+	}
+	return seen
+}
+
 // ReachFrom returns every instruction reachable from start (start itself only
 // if incl) following normal control flow; instructions for which stop
 // returns true are included but not expanded.
